@@ -259,6 +259,10 @@ impl FancyState {
 
         // Move cursor up to the first printed line, for overprinting.
         write!(&mut buf, "\x1b[{}A", lines).ok();
+        #[cfg(feature = "verif")]
+        if crate::verif::frame_sink(buf) {
+            buf.clear();
+        }
         std::io::stdout().write_all(&buf).unwrap();
 
         // Set up buf for next print.
